@@ -556,7 +556,7 @@ def main():
                 c = route(3)
                 if c == 1 and stable(src) and sc <= 2 ** 31:
                     x = src.to_frozen().downsample(scaled=sc).to_mutable()
-                elif c == 2 and src.scaled and not src.track_abundance and sc > src.scaled:
+                elif c == 2 and stable(src) and sc <= 2 ** 31 and src.scaled and not src.track_abundance and sc > src.scaled:
                     x = flatten_and_downsample_scaled(src, sc, src.scaled)
                 else:
                     x = src.downsample(scaled=sc)
@@ -597,8 +597,8 @@ def main():
                     x = A & B
                 elif c == 2 and stable(A, B):
                     x = A.to_frozen().intersection(B.to_frozen())
-                elif c == 3 and A.scaled and A.scaled == B.scaled and not A.track_abundance and not B.track_abundance \
-                        and A.is_compatible(B):
+                elif c == 3 and stable(A, B) and A.scaled and A.scaled == B.scaled and not A.track_abundance \
+                        and not B.track_abundance and A.is_compatible(B):
                     x = flatten_and_intersect_scaled(A, B)
                 else:
                     x = A.intersection(B)
